@@ -23,7 +23,7 @@ BUNDLED_HISTORIES = [[("right", "own"), ("wrong", "own")], [("wrong", "own"), ("
 SENS = [("create_0644", "PrivateWhenCreated"), ("pass_ignored_on_write", "PassNeeded"),
         ("load_ignores_password", "PassNeeded"), ("eq_private", "EqOnlyPublic"), ("hash_private", "HashOnlyPublic"),
         ("public_drops_type", "EqOnlyPublic"), ("eq_cert", "EqOnlyPublic"),
-        ("kdf_cache_ignores_passphrase", "HistSound")]
+        ("kdf_cache_ignores_passphrase", "HistSound"), ("clamp_passphrase_on_write", "SealSound")]
 BITS = [("ur", stat.S_IRUSR), ("uw", stat.S_IWUSR), ("ux", stat.S_IXUSR), ("gr", stat.S_IRGRP), ("gw", stat.S_IWGRP),
         ("gx", stat.S_IXGRP), ("or", stat.S_IROTH), ("ow", stat.S_IWOTH), ("ox", stat.S_IXOTH)]
 
@@ -111,6 +111,8 @@ class Runner:
             return rnd.choice(["пароль", "密码", "pässwörd", "🔑key", "ñ"]) + "-" + str(rnd.randrange(1000))
         if token == "long":
             return "".join(chr(rnd.randrange(0x21, 0x7f)) for _ in range(rnd.choice([64, 200, 1000])))
+        if token.startswith("sized_"):
+            return sized_passphrase(int(token[6:]), "ascii", rnd.randrange(1 << 30))
         raise Machinery("passphrase token " + token)
 
     def wrong(self, right):
@@ -125,7 +127,7 @@ class Runner:
         return "not-the-passphrase"
 
     # ---- file machine
-    def file_case(self, case, force_root=None, legacy=None):
+    def file_case(self, case, force_root=None, legacy=None, fixed=None):
         """legacy = cipher name: the sealed file is a traditional encrypted PEM written by the harness
         (abstractly a `bundled` source: paramiko only loads it)"""
         ktype, target, umask, wpass, lpass, route = case
@@ -161,7 +163,7 @@ class Runner:
             unis = pool.universes[ktype]
             root = force_root or unis[rnd.randrange(len(unis))][0]
             ref, origin = self.get(root, rnd.choice(["generated", "file_pem", "file_openssh"]), rnd.randrange(12))
-            wsecret = self.passphrase(wpass)
+            wsecret = fixed["w"] if fixed else self.passphrase(wpass)
             real = path
             if target == "dangling_link":
                 real = str(d / "real_target")
@@ -190,12 +192,16 @@ class Runner:
             created = exists and not before
             mode = mode_tokens(os.stat(path).st_mode) if exists else []
         # load
-        if lpass == "none":
+        if fixed and "l" in fixed:
+            lsecret = fixed["l"]
+        elif lpass == "none":
             lsecret = None
         elif lpass == wpass:
             lsecret = wsecret
         elif lpass == "wrong":
             lsecret = self.wrong(wsecret)
+        elif lpass in ("prefix", "extension"):
+            lsecret = rnd.choice(near_misses(wsecret, lpass))
         else:
             lsecret = self.passphrase(lpass)
             if lsecret == wsecret and lsecret:
@@ -212,7 +218,7 @@ class Runner:
                     loaded = cls.from_private_key(f, password=lsecret) if rnd.random() < 0.5 else \
                         cls(file_obj=io.StringIO(f.read()), password=lsecret)
             else:
-                loaded = paramiko.PKey.from_path(path, passphrase=lsecret.encode() if lsecret is not None else None)
+                loaded = paramiko.PKey.from_path(path, passphrase=(lsecret.encode() if isinstance(lsecret, str) else lsecret))
             lres = "ok"
         except Exception as e:
             loaded, lres = None, type(e).__name__
@@ -237,7 +243,7 @@ class Runner:
                 "load_passphrase": lsecret, "path": path if target == "bundled" else None}
         self.info.append(info)
         self.executed.add(("file",) + case)
-        self.c.case(key="file|" + "|".join(case) + "|%s|%r|%r|%s" % (origin, wsecret, lsecret, legacy),
+        self.c.case(key="file|" + "|".join(case) + "|%s|%s|%s|%s" % (origin, short(wsecret), short(lsecret), legacy),
                     sample=info if (wpass, lpass) in (("unicode", "wrong"), ("ascii", "ascii")) and Creates(target)
                     and len(self.c.samples) < 3 else None)
 
@@ -431,6 +437,35 @@ class Runner:
                     and a["type"] == b["type"] and len(self.c.samples) < 5 else None)
 
 
+def sized_passphrase(n, enc, salt=0):
+    """a passphrase of exactly n octets (UTF-8): printable ASCII, or two-octet characters ("utf8")"""
+    r = random.Random(salt * 7919 + n)
+    if enc == "utf8" and n >= 2:
+        body = "".join(r.choice("äöüßéñ") for _ in range(n // 2))
+        out = ("x" if n % 2 else "") + body
+    else:
+        out = "".join(chr(r.randrange(0x21, 0x7f)) for _ in range(n))
+    if len(out.encode()) != n:
+        raise Machinery("sized passphrase: %d octets instead of %d" % (len(out.encode()), n))
+    return out
+
+
+def near_misses(right, how):
+    """fixed wrong passphrases that share octets with the right one: proper prefixes (as octet strings, cut at
+    the lengths around the PEM limit too) / extensions"""
+    rb = right.encode()
+    n = len(rb)
+    if how == "prefix":
+        cuts = sorted({k for k in (n - 1, 1023, 1022, n // 2, 1) if 0 < k < n})
+        return [rb[:k] for k in cuts] or [b""]
+    return [right + "x", right + right[:1], right + right, rb + b"\x00"]
+
+
+def short(x):
+    r = repr(x)
+    return r if len(r) <= 48 else "%s...<%d octets>" % (r[:40], len(x.encode() if isinstance(x, str) else x))
+
+
 def Creates(target):
     return target in ("absent", "dangling_link")
 
@@ -450,8 +485,8 @@ def describe_factory(run_):
                    }.get(clause, "%s:%s" % (r["ktype"], r["target"]))
             what = ("%s key (%s, %d bits) written to target=%s under umask %s with passphrase %r [%s], file mode %s, "
                     "created=%s; loaded via %s with passphrase %r -> %s, loaded key: %s; clause %s fails" % (
-                        r["ktype"], info["key"], info["bits"], r["target"], r["umask"], info["write_passphrase"],
-                        r["wres"], "".join(r["mode"]) or "-", r["created"], r["route"], info["load_passphrase"],
+                        r["ktype"], info["key"], info["bits"], r["target"], r["umask"], short(info["write_passphrase"]),
+                        r["wres"], "".join(r["mode"]) or "-", r["created"], r["route"], short(info["load_passphrase"]),
                         r["lres"], r["lkey"], clause))
         elif r["kind"] == "hist":
             step = row[2] if len(row) > 3 else len(r["steps"])
@@ -507,7 +542,7 @@ def run(c):
         hists = sorted({(x[1], tuple((lp, lc) for lp, lc in x[2])) for x in r.printed("HIST")})
         if not files or not cmps or not any(x[3] for x in cmps) or all(x[3] for x in cmps) or not hists:
             raise Machinery("vacuous model: %d file cases, %d comparisons, %d histories" % (len(files), len(cmps), len(hists)))
-        # quick: one toggle, rotating with the seed; thorough: all eight
+        # quick: one toggle, rotating with the seed; thorough: all nine
         for d, inv in ([SENS[c.seed % len(SENS)]] if c.quick else SENS):
             c.mc("KeyIO", cfg_text(constants=consts([d]), invariants=P_INVS if inv in P_INVS else [inv]), expect=inv,
                  name="sensitivity " + d)
@@ -551,6 +586,21 @@ def run(c):
                 elif target == "bundled":
                     for cipher in ("AES-128-CBC", "DES-EDE3-CBC"):
                         run_.file_case(case, force_root=root, legacy=cipher)
+    # passphrase LENGTH classes around the PEM limit (1, 1022, 1023, 1024, 4096 octets; ASCII and two-octet
+    # characters) with the fixed near-miss wrong passphrases (octet prefixes incl. the first 1023 / 1022, extensions):
+    # a fixed, non-sampled stratum over every (sized write passphrase, load passphrase, route) case of the model
+    if not replay:
+        for case in files:
+            ktype, target, umask, wpass, lpass, route = case
+            if not wpass.startswith("sized_"):
+                continue
+            for enc in ("ascii", "utf8"):
+                w = sized_passphrase(int(wpass[6:]), enc)
+                if lpass in ("prefix", "extension"):
+                    for l in near_misses(w, lpass):
+                        run_.file_case(case, fixed={"w": w, "l": l})
+                else:
+                    run_.file_case(case, fixed={"w": w})
     # ECDSA keys with short coordinates (fixed scalars): every same-key pair of kinds, every run
     if not replay:
         kinds = sorted({a["kind"] for _, a, _b, _e in cmps if a["type"] == "ecdsa256" and a["mat"] == "k1"})
